@@ -100,9 +100,10 @@ class ScriptedAcceptor(Peer):
 
     def __init__(self, sim, sock, accept=default_accept, max_length=16384, on_message=None,
                  reply='ac', rj=(1, 1, 1), on_established=None, close_after_release=True,
-                 called=None, calling=None, on_pdu=None):
+                 called=None, calling=None, on_pdu=None, ac_user_info=None):
         Peer.__init__(self, sim, sock, 'acceptor-peer')
         self.on_pdu = on_pdu
+        self.ac_user_info = ac_user_info      # bytes of the User Information item of the AC
         self.accept = accept
         self.max_length = max_length
         self.on_message = on_message
@@ -148,7 +149,7 @@ class ScriptedAcceptor(Peer):
             return
         self.results = self.accept(p['contexts'])
         self.send(rc.enc_assoc_ac(called=p['called'], calling=p['calling'], results=self.results,
-                                  max_length=self.max_length))
+                                  max_length=self.max_length, user_info=self.ac_user_info))
         if self.on_established is not None:
             self.on_established(self)
         self.serve()
